@@ -662,3 +662,18 @@ PLAN['C06']['stages'] = lambda tier, seed: (
     [core('core_undo_tracked', ['mod', 'undo'], 5 if tier == 'quick' else 6, 2, stack=1, und=1, undone=True)])
 PLAN['C06']['bounds'] = {k: v + '; every (undone block, next block) pair continued: n<=%d, adds 0..2' % (5 if k == 'quick' else 6)
                          for k, v in PLAN['C06']['bounds'].items()}
+
+
+def mapalg(tier):
+    q = tier == 'quick'
+    return {'kind': 'spec_check', 'name': 'mapforestalg_refines', 'module': 'MapForestAlg', 'spec': 'MSpec',
+            'constants': {'MaxN': 10 if q else 12, 'MaxAdds': 5 if q else 6}, 'invariants': ['MapRefines'],
+            'timeout': 900 if q else 7200}
+
+
+for _p in ('C01', 'C10'):
+    PLAN[_p]['stages'] = (lambda f: (lambda tier, seed: [mapalg(tier)] + f(tier, seed)))(PLAN[_p]['stages'])
+    PLAN[_p]['rule'] += (' Spec level: spec/MapForestAlg.tla keeps a position->hash map with the swapless move-up algorithm (forget below, '
+                         'move the sibling subtree up, re-hash; additions climbing over empty roots) and TLC checks over all block '
+                         'histories in bounds that it equals the history-free placement Forest!Nodes plus an empty hash at the root of '
+                         'every all-dead tree - the position and hash of every node.')
